@@ -28,6 +28,17 @@ type Gen struct {
 	Large     bool
 	NoUploads bool
 	count     int
+	// queue: operations scripted ahead (a directed follow-up to something that just happened);
+	// Next hands them out before drawing anything new
+	queue []Op
+	// reuse: a resume enqueued as part of a "session used again after its commit" follow-up:
+	// when it yields a writer, a short write and a read of the committed digest follow
+	reuse *reusePlan
+}
+
+type reusePlan struct {
+	repo, digest string
+	content      []byte
 }
 
 type ManRef struct {
@@ -385,8 +396,17 @@ func (g *Gen) liveWriter() (int, *WriterInfo) {
 }
 
 // Next produces the next operation.
+// Pending reports whether scripted follow-up operations are waiting (a history should not end
+// in the middle of one).
+func (g *Gen) Pending() bool { return len(g.queue) > 0 }
+
 func (g *Gen) Next() Op {
 	g.count++
+	if len(g.queue) > 0 {
+		o := g.queue[0]
+		g.queue = g.queue[1:]
+		return o
+	}
 	for {
 		p := g.R.Intn(100)
 		if g.count <= 6 && g.R.Intn(4) != 0 { // warm-up: mostly pushes
@@ -587,6 +607,23 @@ func (g *Gen) Update(o Op, r Result, e *Exec) {
 			for len(g.Writers) <= r.W {
 				g.Writers = append(g.Writers, &WriterInfo{Repo: o.Repo, ID: e.WriterCanonID(r.W)})
 			}
+			if g.reuse != nil && o.Kind == "PushBlobChunkedResume" {
+				// the session of a committed upload was opened again: write something else into
+				// it (no longer than what was committed) and read the committed blob
+				pl := g.reuse
+				c := []byte("EVIL-EVIL-EVIL-EVIL-EVIL-EVIL-EVIL-EVIL")
+				if len(c) > len(pl.content) {
+					c = c[:len(pl.content)]
+				}
+				if len(c) > 0 {
+					g.queue = append(g.queue, Op{Kind: "WWrite", W: r.W, Content: c})
+				}
+				g.queue = append(g.queue, Op{Kind: "GetBlob", Repo: pl.repo, Digest: pl.digest},
+					Op{Kind: "ResolveBlob", Repo: pl.repo, Digest: pl.digest})
+			}
+		}
+		if o.Kind == "PushBlobChunkedResume" {
+			g.reuse = nil
 		}
 	case "WWrite":
 		if r.Kind == "n" {
@@ -599,7 +636,22 @@ func (g *Gen) Update(o Op, r Result, e *Exec) {
 		}
 	case "WCommit":
 		if r.Kind == "desc" {
-			g.Blobs[g.Writers[o.W].Repo] = append(g.Blobs[g.Writers[o.W].Repo], r.Desc.Digest)
+			w := g.Writers[o.W]
+			g.Blobs[w.Repo] = append(g.Blobs[w.Repo], r.Desc.Digest)
+			// now and then: the session is used again after its commit - cancelled or closed (the
+			// documented "defer w.Cancel()" / "defer w.Close()"), opened again by id and written to.
+			// Whatever the registry makes of that, the committed blob must stay what it is.
+			if len(g.queue) == 0 && g.R.Intn(3) != 0 {
+				switch g.R.Intn(4) {
+				case 0, 1:
+					g.queue = append(g.queue, Op{Kind: "WCancel", W: o.W})
+				case 2:
+					g.queue = append(g.queue, Op{Kind: "WClose", W: o.W})
+				}
+				off := []int64{0, 0, -1, int64(len(w.Written))}[g.R.Intn(4)]
+				g.queue = append(g.queue, Op{Kind: "PushBlobChunkedResume", Repo: w.Repo, ID: w.ID, Off: off, Hint: 0})
+				g.reuse = &reusePlan{repo: w.Repo, digest: r.Desc.Digest, content: append([]byte{}, w.Written...)}
+			}
 		}
 	}
 }
